@@ -872,7 +872,7 @@ def main():
         "x-grid re-interpolation: old grid of n = 3..4 (thorough: up to 6) symbolic sorted nodes, log and linear, interpolation degree 1..2 (thorough: up to 3), flavour dimension 1; "
         "new grids given by position patterns relative to the old nodes (node itself / strictly inside an interval / between the neighbours of a node) with symbolic positions",
         "state across calls: two xgrid_reshape calls in one process towards the same new grid, same degree and side, for operators on old grids of equal length that differ "
-        "at one node (free symbol); n = 3..4 (thorough: up to 5); every explored path otherwise starts from the import-time module state",
+        "at one node (free symbol); n = 3..4; every explored path otherwise starts from the import-time module state",
         "polynomial test functions: all monomials u^m, m <= degree, with symbolic coefficient tensors (target side) / all monomials (input side)",
     ]
     chk.out_of_claim = [
@@ -917,7 +917,7 @@ def main():
             chk.case("xgrid.input.close.%s.n%d.deg%d" % (tag, n, d), case_xgrid_input, mode=mode, n=n, deg=d,
                      sspec=[0] + [("near", 1)] + list(range(2, n)))
         chk.case("xgrid.both.%s.n3.deg1" % tag, case_xgrid_input, mode=mode, n=3, deg=1, sspec=[0, ("in", 0), ("in", 1), 2], also_target=True)
-    seq = [(True, 3, 1, "target"), (False, 3, 1, "input"), (True, 4, 2, "input")] + ([(False, 4, 2, "target"), (True, 5, 3, "target"), (False, 5, 2, "input"), (True, 5, 1, "input")] if thorough else [])
+    seq = [(True, 3, 1, "target"), (False, 3, 1, "input"), (True, 4, 2, "input")] + ([(False, 4, 2, "target"), (True, 4, 1, "target"), (False, 4, 1, "input")] if thorough else [])
     for mode, n, d, side in seq:
         chk.case("xgrid.sequence.%s.%s.n%d.deg%d" % (side, "log" if mode else "lin", n, d), case_xgrid_sequence, mode=mode, n=n, deg=d, side=side)
     chk.case("errors", case_errors)
